@@ -181,6 +181,8 @@ fn main() {
         }
         for mask in 0u32..(1 << 10) { let v: Vec<u32> = (0..10).filter(|i| mask >> i & 1 == 1).map(|i| [1u32, 2, 3, 5, 6, 9, 10, 11, 40, u32::MAX][i]).collect(); chk_unstaged(&mut c, &v, true); }
         chk_unstaged(&mut c, &[1, 2], false);
+        // the untracked-file shape: one range Range(1, n), also for n == 1
+        for n in 1u32..5 { let mut m: StdHashMap<String, Vec<LineRange>> = StdHashMap::new(); m.insert("f.rs".to_string(), vec![LineRange::Range(1, n)]); let key = "f.rs".to_string(); c.evaluated += 1; let got = region_split_unstaged_lines(m, &key); let want: Vec<u32> = (1..=n).collect(); if got != want { c.fail("region_split_unstaged_lines", "ensures#1", format!("U;range-1-{};1", n), format!("{:?}", got), format!("{:?}", want)); } }
         gen_scenarios(&mut c, &mut g);
         for _ in 0..20000 { let base = if g.below(4) == 0 { u32::MAX - 40 } else { g.below(50) as u32 }; let n = 1 + g.below(14) as usize; let mut v = vec![]; let mut cur = base; for _ in 0..n { let step = 1 + if g.below(2) == 0 { 0 } else { g.below(4) as u32 }; match cur.checked_add(step) { Some(nx) => { cur = nx; v.push(cur); } None => break } } chk(&mut c, &v); }
     } else if a[3].starts_with("S;") {
